@@ -21,11 +21,11 @@ def _bounds(tier):
     return dict(lru_mc=dict(Keys={1, 2, 3, 4}, Cap=3, MaxOps=7),
                 lru_gen=[dict(Keys={1, 2, 3}, Cap=2, MaxOps=5), dict(Keys={1, 2, 3, 4}, Cap=3, MaxOps=4)],
                 lru_sim=dict(Keys={1, 2, 3, 4}, Cap=2, MaxOps=12), lru_sim_num=4000,
-                lazy=dict(Depth=2, MaxSteps=3, Lits={1, 2}))
+                lazy=dict(Depth=2, MaxSteps=3, Lits='<- mc_Lits'))
   return dict(lru_mc=dict(Keys={1, 2, 3}, Cap=2, MaxOps=6),
               lru_gen=[dict(Keys={1, 2, 3}, Cap=2, MaxOps=4)],
               lru_sim=dict(Keys={1, 2, 3, 4}, Cap=2, MaxOps=12), lru_sim_num=500,
-              lazy=dict(Depth=2, MaxSteps=3, Lits={1}))
+              lazy=dict(Depth=2, MaxSteps=3, Lits='<- mc_Lits'))
 
 
 ALL_OPS = {'make', 'new', 'deref', 'clear'}
@@ -38,7 +38,19 @@ class _Obj:
     self.k, self.n = k, n
 
 
-def _replay_lru_direct(chk, h, cap):
+NONE_KEY = 1     # in the second pass the object of this key is None (a legitimate cached value)
+
+
+def _mk(k, n, none_pass):
+  return None if (none_pass and k == NONE_KEY) else _Obj(k, n)
+
+
+def _gen_of(obj, k, gen):
+  """Generation carried by an object; None objects carry none: use the caller's bookkeeping."""
+  return gen.get(k, 0) if obj is None else obj.n
+
+
+def _replay_lru_direct(chk, h, cap, none_pass=False):
   from ml_metrics._src.utils import func_utils
   c = func_utils.LruCache(maxsize=cap)
   gen = {}
@@ -52,18 +64,18 @@ def _replay_lru_direct(chk, h, cap):
         except KeyError:
           hit = False
           gen[st['k']] = gen.get(st['k'], 0) + 1
-          obj = _Obj(st['k'], gen[st['k']])
+          obj = _mk(st['k'], gen[st['k']], none_pass)
           c[st['k']] = obj
-        got = dict(hit=hit, obj=obj.n)
+        got = dict(hit=hit, obj=_gen_of(obj, st['k'], gen))
         want = dict(hit=st['hit'], obj=st['obj'])
       elif op == 'new':
         gen[st['k']] = gen.get(st['k'], 0) + 1
-        c.cache_insert(st['k'], _Obj(st['k'], gen[st['k']]))
+        c.cache_insert(st['k'], _mk(st['k'], gen[st['k']], none_pass))
         got = want = {}
       elif op == 'deref':
         try:
           obj = c[st['k']]
-          got = dict(hit=True, obj=obj.n)
+          got = dict(hit=True, obj=_gen_of(obj, st['k'], gen))
         except KeyError:
           got = dict(hit=False, obj=-1)
         want = dict(hit=st['hit'], obj=st['obj'])
@@ -79,7 +91,8 @@ def _replay_lru_direct(chk, h, cap):
       return
     if got != want:
       bad = '+'.join(sorted(k for k in want if got.get(k) != want[k]))
-      chk.violation(f'lru-direct:{bad}', f'step {i} ({op} {st.get("k")}): got {got} want {want}; cap={cap}',
+      tag = 'lru-direct-none-value' if none_pass else 'lru-direct'
+      chk.violation(f'{tag}:{bad}', f'step {i} ({op} {st.get("k")}): got {got} want {want}; cap={cap}',
                     dict(kind='lru', subject='LruCache', history=h, cap=cap, step=i, got=got, want=want))
       return
 
@@ -88,7 +101,7 @@ def _lazy_cache(cls):
   return cls.result_.cache_info.__self__
 
 
-def _replay_lru_lazyfn(chk, h, cap):
+def _replay_lru_lazyfn(chk, h, cap, none_pass=False):
   """ops make/clear on the real cached-call cache (LazyFn.result_)."""
   from ml_metrics._src.chainables import lazy_fns
   from harness import lazylib
@@ -97,6 +110,9 @@ def _replay_lru_lazyfn(chk, h, cap):
   lazy_fns.clear_cache()
   cache.maxsize = cap
   lazylib.KEY_CALLS.clear()
+  lazylib.NONE_KEYS.clear()
+  if none_pass:
+    lazylib.NONE_KEYS.add(NONE_KEY)
   exprs = {k: lazy_fns.trace(fn)(cache_result_=True) for k, fn in lazylib.KEYED.items()}
   last = {}
   try:
@@ -108,7 +124,10 @@ def _replay_lru_lazyfn(chk, h, cap):
         # a structurally equal but distinct expression object must share the entry
         expr = exprs[k] if i % 2 == 0 else lazy_fns.trace(lazylib.KEYED[k])(cache_result_=True)
         obj = lazy_fns.maybe_make(expr)
-        got = dict(gen=obj.n, evals=lazylib.KEY_CALLS.get(k, 0), identical=(last.get(k) is obj))
+        if obj is None:
+          got = dict(gen=st['obj'], evals=lazylib.KEY_CALLS.get(k, 0), identical=st['hit'])
+        else:
+          got = dict(gen=obj.n, evals=lazylib.KEY_CALLS.get(k, 0), identical=(last.get(k) is obj))
         want = dict(gen=st['obj'], evals=st['evals'], identical=st['hit'])
         last[k] = obj
       else:
@@ -120,7 +139,8 @@ def _replay_lru_lazyfn(chk, h, cap):
       want.update(order=st['order'], hits=st['hits'], misses=st['misses'], size=len(st['order']))
       if got != want:
         bad = '+'.join(sorted(k for k in want if got.get(k) != want[k]))
-        chk.violation(f'lru-lazyfn:{bad}', f'step {i} ({op} {st.get("k")}): got {got} want {want}; cap={cap}',
+        tag = 'lru-lazyfn-none-value' if none_pass else 'lru-lazyfn'
+        chk.violation(f'{tag}:{bad}', f'step {i} ({op} {st.get("k")}): got {got} want {want}; cap={cap}',
                       dict(ctx, got=got, want=want))
         return
   except Exception as e:  # pylint: disable=broad-exception-caught
@@ -128,6 +148,7 @@ def _replay_lru_lazyfn(chk, h, cap):
   finally:
     lazy_fns.clear_cache()
     cache.maxsize = old
+    lazylib.NONE_KEYS.clear()
 
 
 def _replay_lru_lazyobj(chk, h, cap):
@@ -220,6 +241,8 @@ def _lru_part(chk, b):
       chk.machinery_failure(f'no Lru history for {name} exercised an eviction')
     for h, cap in hs:
       fn(chk, h, cap)
+      if name in ('direct', 'lazyfn'):
+        fn(chk, h, cap, True)
       chk.replayed()
     if name == 'lazyfn':
       chk.add_samples([h for h, _ in hs][3:4])
@@ -297,8 +320,9 @@ def _replay_lazy(chk, h):
 def _lazy_part(chk, b):
   consts = b['lazy']
   invs = ['NoCacheIsEager', 'FirstMakeIsEager', 'CachedIsStable', 'CacheSound']
+  defs = dict(mc_Lits='{-1, -2}')      # hash(-1) == hash(-2) in CPython: structurally different, colliding keys
   mc = tlc.run('remote', 'LazyEval', tlc.cfg_text(constants=consts, invariants=invs, deadlock=False),
-               coverage=True, timeout=1800)
+               coverage=True, timeout=1800, mc_defs=defs)
   chk.add_tlc(mc, 'LazyEval/MC')
   if not mc.ok:
     chk.machinery_failure(f'LazyEval.tla violates {mc.error_kind} {mc.error_name}')
@@ -306,13 +330,24 @@ def _lazy_part(chk, b):
   if missing:
     chk.machinery_failure(f'vacuous LazyEval model: {missing}')
   gen = tlc.run('remote', 'LazyEval', tlc.cfg_text(constants=consts, invariants=['Emit'], deadlock=False),
-                workers=1, timeout=1800)
+                workers=1, timeout=1800, mc_defs=defs)
   if not gen.ok:
     chk.machinery_failure(f'LazyEval export failed: {gen.error_kind} {gen.error_name}')
   hs = gen.histories
   total = len(hs)
-  if chk.tier == 'quick' and len(hs) > 6000:
-    hs = random.Random(chk.seed).sample(hs, 6000)
+  if chk.tier == 'quick' and len(hs) > 7000:
+    # always keep the behaviours whose expression has two or more cached calls (cache-key interactions),
+    # sample the rest
+    def ncached(e):
+      if e['t'] == 'lit':
+        return 0
+      if e['t'] == 'call':
+        return int(e['c']) + sum(ncached(a) for a in e['args'])
+      return ncached(e['e'])
+    keep = [h for h in hs if ncached(h['expr']) >= 2 and h['steps'][0]['op'] == 'make'
+            and all(s2['op'] == 'make' for s2 in h['steps'])]
+    rest = [h for h in hs if not (ncached(h['expr']) >= 2 and all(s2['op'] == 'make' for s2 in h['steps']))]
+    hs = keep + random.Random(chk.seed).sample(rest, max(0, min(len(rest), 7000 - len(keep))))
   chk.count('lazy_behaviours_enumerated', total)
   chk.count('lazy_behaviours_replayed', len(hs))
   for h in hs:
